@@ -7,7 +7,8 @@
      (C02_ref_consumes_longest_viable). *)
 From Coq Require Import List ZArith Bool.
 From Lox Require Import Lex.LexRuntime Lex.LexAuto Lex.LexEquiv Lex.RegexRef
-  Lex.LexLookupProofs Lex.LexDecodeProofs Lex.LexEquivProofs Lex.RegexProofs Lex.RegexProofs2.
+  Lex.LexLookupProofs Lex.LexDecodeProofs Lex.LexEquivProofs Lex.RegexProofs Lex.RegexProofs2
+  Lex.Utf8Model Lex.Utf8Proofs Lex.Utf8Lex.
 Import ListNotations.
 Open Scope Z_scope.
 
@@ -79,3 +80,44 @@ Theorem C02_decode_lex : forall modes fuel inp, modes_wf modes = true ->
   lex_tables modes fuel inp = g_lex Z (table_auto modes) (fun _ => 0) (length modes) fuel inp.
 Proof. exact decode_lex. Qed.
 Print Assumptions C02_decode_lex.
+
+(* ---- the input as BYTES: valid, invalid and truncated UTF-8 ----
+   The driver's rune reader (bytes.Reader.ReadRune = utf8.DecodeRune on the
+   unread suffix) is mirrored by Utf8Model.decode_all and compared with Go on
+   every input the harness lexes. *)
+
+(* every byte string decodes; the widths add up to the number of bytes and every
+   code point handed to the state machine is a Unicode scalar value *)
+Theorem C02_decode_all_total : forall bs,
+  sum_widths (decode_all bs) = Z.of_nat (length bs) /\
+  Forall (fun r => 0 <= r <= 1114111 /\ ~ (55296 <= r <= 57343)) (runes_of (decode_all bs)).
+Proof. exact decode_all_total_gen. Qed.
+Print Assumptions C02_decode_all_total.
+
+(* a well-formed encoding decodes to its code point and its length ... *)
+Theorem C02_decode_encode : forall r rest,
+  0 <= r <= 1114111 -> ~ (55296 <= r <= 57343) ->
+  decode_rune (encode_rune r ++ rest) = Some (r, Z.of_nat (length (encode_rune r)), rest).
+Proof. exact decode_encode. Qed.
+Print Assumptions C02_decode_encode.
+
+(* ... and anything else is U+FFFD of width 1 (one byte skipped), nothing else *)
+Theorem C02_decode_valid_or_replacement : forall bs r w rest,
+  decode_rune bs = Some (r, w, rest) ->
+  (r = RuneError /\ w = 1 /\ rest = tl bs /\ ~ valid_prefix bs) \/
+  (scalar r /\ bs = encode_rune r ++ rest /\ w = Z.of_nat (length (encode_rune r))).
+Proof. exact decode_valid_or_replacement. Qed.
+Print Assumptions C02_decode_valid_or_replacement.
+
+(* hence the equivalence with the reference holds on ALL byte strings, with no
+   side condition on the input left *)
+Theorem C02_equiv_lex_bytes :
+  forall (R : Type) (reqb : R -> R -> bool) (modes : list (list Z))
+         (RA : nat -> R -> option (view R)) (rstart : nat -> R) (visited : list (pair R)),
+    (forall a b, reqb a b = true <-> a = b) ->
+    closed R reqb modes RA rstart visited = true ->
+    modes_wf modes = true ->
+    forall fuel bs,
+      lex_bytes modes fuel bs = g_lex R RA rstart (length modes) fuel (decode_all bs).
+Proof. exact lex_bytes_equiv. Qed.
+Print Assumptions C02_equiv_lex_bytes.
